@@ -22,7 +22,6 @@ condition) is compared with the skeleton the hand model coq/C12_Model.v was writ
   rw[n-i-1][0] = x_middle + x_half_width*z                g_gl_node_hi x_middle x_half_width z
   rw[i][1] = 2.0*x_half_width/((1.0 - z*z)*pp*pp)         g_gl_weight x_half_width z pp
   (index n - i - 1)                                       g_gl_mirror_index n i
-  integral += function_values[i]*rw[i][1]   (value overload)   g_gl_acc integral v w ; initial value g_gl_acc_init
 The proofs that these are the terms of the hand model are in coq/C12_GenTie.v.
 """
 import json, os, sys
@@ -53,6 +52,7 @@ class Sites:
         self.tr = c.Tr(src_text, [], pi=True)
         self.skel = []       # the statement skeleton, one string per statement
         self.exprs = {}      # site tag -> AST node of the expression
+        self.index_nodes = {}  # store target -> its index expressions
 
     def index(self, n):
         """rw[e1][e2] / v[e] as (container, [index nodes]) or None"""
@@ -126,7 +126,8 @@ class Sites:
             if op not in ("=", "+="): raise Unsupported(f"expression statement {op}")
             lhs, rhs = s["inner"]
             ix = self.index(lhs)
-            if ix is not None: target = self.show_index(ix)
+            if ix is not None:
+                target = self.show_index(ix); self.index_nodes.setdefault(target, ix[1])
             else:
                 l = strip(lhs)
                 if l["kind"] != "DeclRefExpr": raise Unsupported(f"assignment to a {l['kind']}")
@@ -201,19 +202,6 @@ DEFS_RULE = [
     ("set:roots_and_weights[v_i][(1)%Z]", "g_gl_weight", ["x_half_width", "z", "pp"], "T"),
 ]
 
-SKEL_VALUES = """if <if>
-  diagnostic
-  exit
-for uint i = 0; (Z.ltb v_i (Z.of_nat (length v_roots_and_weights))); ++
-  if <if#2>
-    diagnostic
-    exit
-decl double integral = <decl:integral>
-for uint i = 0; (Z.ltb v_i (Z.of_nat (length v_function_values))); ++
-  integral += <set:integral>
-return integral"""
-
-
 PRELUDE = """(* GENERATED by tools/cxx2gallina_C12.py from src/Integration.cpp -- do not edit; regenerated on every run of the check.
    Formula sites of Compute_Gauss_Legendre_Roots_and_Weights (the statement skeleton around them is compared by the generator
    with the one the hand model was written from). *)
@@ -253,6 +241,10 @@ def translate_c12(repo, extra_incs=()):
         d = "\n".join(difflib.unified_diff(SKEL_RULE.split("\n"), got.split("\n"), "model", "source", lineterm="", n=0))
         raise Unsupported("the statement skeleton of Compute_Gauss_Legendre_Roots_and_Weights differs from the one modelled:\n" + d)
     out = [PRELUDE] + emit(S, DEFS_RULE, None)
+    hi = "roots_and_weights[(gu32 (Z.sub (gu32 (Z.sub v_n (gu32 v_i))) (1)%Z))][(0)%Z]"
+    e = S.index_nodes[hi][0]
+    if sorted(a for a, _ in free_vars(e, [])) != ["i", "n"]: raise Unsupported("mirror index")
+    out.append(f"(* the row index of the mirrored stores *)\nDefinition g_gl_mirror_index (v_n : Z) (v_i : Z) : Z :=\n  {S.idx_E(e)}.\n")
     return "\n".join(out)
 
 
